@@ -355,10 +355,13 @@ func (runInfo *runInfoStruct) invokeMemberExpr(expr *ast.MemberExpr) {
 		return
 	}
 
-	value := runInfo.rv.MethodByName(expr.Name)
-	if value.IsValid() {
-		runInfo.rv = value
-		return
+	// a nil value of an interface type with methods (a nil error) has no method to hand out
+	if runInfo.rv.Kind() != reflect.Interface {
+		value := runInfo.rv.MethodByName(expr.Name)
+		if value.IsValid() {
+			runInfo.rv = value
+			return
+		}
 	}
 
 	if runInfo.rv.Kind() == reflect.Ptr {
